@@ -190,10 +190,10 @@ func TestVerifC13Ring(t *testing.T) {
 				op.Op = "add"
 			case x < 60:
 				op.Op = "addw"
-				op.Arg = []int{0, 1, 10, 30, 50, 70, 99, 100, 150, r.Intn(151)}[r.Intn(10)]
+				op.Arg = []int{0, 1, 10, 30, 50, 70, 99, 100, 150, r.Intn(151), -1, -40}[r.Intn(12)] // a negative weight owns nothing, like 0
 			case x < 72:
 				op.Op = "addr"
-				op.Arg = []int{0, 1, 50, 100, 150, r.Intn(151)}[r.Intn(6)]
+				op.Arg = []int{0, 1, 50, 100, 150, r.Intn(151), -1, -100}[r.Intn(8)]
 			default:
 				op.Op = "remove"
 			}
